@@ -172,6 +172,18 @@ def run(ctx, model_ok):
     for src, want, r in zip(ib, interp_expected, core.cli_batch(ib)):
         if (r["stdout"], r["status"]) != (want, "0"):
             ctx.violation(f"C09: an interpolated literal is not read as its pieces and slots: expected {want!r}", src, {"cli": r})
+    # names that begin with a keyword, as the first token of a statement after every way a statement can end (a closing
+    # brace and a line break, a closing brace and `;`, a comment line in between)
+    kw_src = ('elsewhere := 1\nif elsewhere == 1 {\n    iffy := 2\n    print(iffy)\n}\nelsewhere += 1\n{\n    format := 3\n    print(format)\n}\n'
+              'elsewhere += 1\nfn returned() {\n    return 1\n}\nelsewhere2 := returned()\nwhile false {\n    print(0)\n}\nelsewhere += elsewhere2\n'
+              'for [_, inner] in [7] {\n    print(inner)\n}\nelsewhere += 1\nif false {\n    print(0)\n} else {\n    print(1)\n}\nelsewhere += 1\n'
+              'fn f() {\n    return null\n};elsewhere += 1\nnullable := f()\ntrueish := true\nbreaker := [elsewhere, nullable, trueish]\nprint(breaker)\n')
+    bases.append(("interp", kw_src))
+    r, = core.cli_batch([kw_src])
+    kw_want = "2\n3\n7\n1\n[\n    7,\n    <null>,\n    true,\n]\n"
+    if (r["stdout"], r["status"]) != (kw_want, "0"):
+        ctx.violation("C09: a name that begins with a keyword, written first in a statement after a closing brace, is not read as a "
+                      f"name: expected {kw_want!r}", kw_src, {"cli": r})
     seen = set()
     bases = [(l, s) for l, s in bases if not (s in seen or seen.add(s))]
     # the text of an interpolation slot is program text too: blanks after `${` (the layout engine above leaves literals alone)
@@ -179,7 +191,9 @@ def run(ctx, model_ok):
     slot_variants = []
     for sb in slot_bases:
         k = sb.count("${")
-        forms = {sb.replace("${", "${ "), sb.replace("${", "${  ", 1), "${\t".join(sb.rsplit("${", 1))}
+        forms = {sb.replace("${", "${ "), sb.replace("${", "${  ", 1), "${\t".join(sb.rsplit("${", 1)),
+                 # comments (with arbitrary text: a quote, an apostrophe, balanced braces) and line breaks at the start of a slot
+                 sb.replace("${", "${ # say \"\n "), "${# it's {1}\n\n".join(sb.rsplit("${", 1)), sb.replace("${", "${\n", 1)}
         if k >= 2:
             i2 = sb.index("${", sb.index("${") + 2)
             forms.add(sb[:i2] + "${   " + sb[i2 + 2:])
@@ -199,7 +213,7 @@ def run(ctx, model_ok):
             if (cb["stdout"], cb["status"]) != (cv["stdout"], cv["status"]) or \
                     re.sub(r"\d+:\d+", "", cb["stderr"]) != re.sub(r"\d+:\d+", "", cv["stderr"]):
                 reported_slots += 1
-                ctx.violation("C09: blanks inserted after `${` inside an interpolated literal changed behaviour", sv,
+                ctx.violation("C09: blanks, line breaks or a comment inserted after `${` inside an interpolated literal changed behaviour", sv,
                               {"original": sb, "original_cli": cb, "rewritten_cli": cv})
     state = {"reported": {}, "samples": set(), "tie_budget": 6000 if thorough else 1500}
     chunk = 200
